@@ -1,6 +1,6 @@
 """Copy confirmed sub-agent mutants from /tmp/seed_out into /verif/seeded/<prop>-<mk>/ (patch.diff, demo.py, meta.json)."""
 import json, os, shutil, sys, re
-SRC = "/tmp/seed_out"
+SRC = os.environ.get("SEED_SRC", "/tmp/seed_out")
 DST = "/verif/seeded"
 for prop in sorted(os.listdir(SRC)):
     pd = os.path.join(SRC, prop)
@@ -13,7 +13,7 @@ for prop in sorted(os.listdir(SRC)):
             continue
         c = json.load(open(cj))
         ok = c.get("apply") and c.get("demo_pristine_rc") == 0 and c.get("demo_mutated_rc") not in (0, None) and c.get("suite", "").startswith("269 passed")
-        out = os.path.join(DST, "%s-%s" % (prop, m))
+        out = os.path.join(DST, "%s-%s%s" % (prop, os.environ.get("SEED_PREFIX", ""), m))
         if not ok:
             print("NOT CONFIRMED", prop, m, c)
             continue
